@@ -47,8 +47,9 @@ ASSUMPTIONS = [
     'visible (the other must be beneath when nesting)',
 ]
 
-DIRS = ['a', 'b', 'img', 'snd.d', 'x.y']
-STEMS = ['f', 'g', 'pic', 'readme', 'n.m']
+# ('shots.png', 'copy.png': the text of an extension also earlier in a path)
+DIRS = ['a', 'b', 'img', 'snd.d', 'x.y', 'shots.png']
+STEMS = ['f', 'g', 'pic', 'readme', 'n.m', 'copy.png']
 EXTS = ['', '.txt', '.png', '.gz']
 
 
@@ -129,7 +130,8 @@ def gen_one(rng, tier, magic=False, hidden=False):
                       # relative to the working directory ('name', './name')
                       'spelling': rng.choice(
                           [None, None, None, 'dotdot', 'double', 'slashdot',
-                           'relative', 'dot_relative']),
+                           'relative', 'dot_relative', 'cwd_dot',
+                           'cwd_dotslash', 'cwd_empty']),
                       # a file appears in an existing (nested) directory
                       # between two populations by the same populator
                       'add_file': rng.random() < 0.25})
@@ -324,9 +326,14 @@ def _run(case, desper, res, tmp):
             root = base
         elif spelling == 'dot_relative':
             root = os.path.join(os.curdir, base)
+        elif spelling in ('cwd_dot', 'cwd_dotslash', 'cwd_empty'):
+            # the root IS the working directory
+            root = {'cwd_dot': os.curdir, 'cwd_dotslash': os.curdir + os.sep,
+                    'cwd_empty': ''}[spelling]
         if spelling:
             res.tags['root_spelling'].add(spelling)
-        if call.get('trailing_sep'):
+        if call.get('trailing_sep') and root:
+            # ('' + separator would be the root of the file system)
             root = root + os.sep
             res.tags['root_with_trailing_separator'].add(True)
         nest = case['ctor']['nest'] if call['nest'] is None else call['nest']
@@ -349,6 +356,8 @@ def _run(case, desper, res, tmp):
         try:
             if spelling in ('relative', 'dot_relative'):
                 os.chdir(parent)
+            elif spelling in ('cwd_dot', 'cwd_dotslash', 'cwd_empty'):
+                os.chdir(plain_root)
             pop(rmap, **kwargs)
             outcome = 'ok'
         except ValueError:
